@@ -631,6 +631,18 @@ func writeEvidence(pf *PropFile, rep *report) {
 // cmdPin regenerates the pinned obligation list of a property from the current tree.
 func cmdPin(args []string) int {
 	P := mustLoad()
+	// type and provenance of every local name of every function under contract (see aliasRenamed)
+	sigs := map[string]map[string]localSig{}
+	for key, fs := range P.spec.Funcs {
+		fn := P.funcs[key]
+		if fn == nil || fs.Assumed || len(fn.Blocks) == 0 {
+			continue
+		}
+		sigs[key] = localSigs(fn)
+	}
+	if data, err := json.MarshalIndent(sigs, "", " "); err == nil {
+		_ = os.WriteFile(filepath.Join(verifDir, "props", "_locals.json"), append(data, '\n'), 0o644)
+	}
 	for _, id := range args {
 		pf, err := loadProp(id)
 		if err != nil {
